@@ -1410,29 +1410,40 @@ Proof.
 Qed.
 
 (* the token after an argument ends a whitespace-sensitive expression *)
-Lemma seq_stop (t : list lexp) wz c r : precedences (ttype c) <= lowestPrec ->
+Lemma seq_stop (t : list lexp) wz c r : is_eol (ttype c) = true \/ precedences (ttype c) <= lowestPrec ->
   stop_tok true lowestPrec (look0 (wsl (seq_flag t wz) ++ render_seq render t wz ++ c :: r)).
 Proof.
   intro H. destruct t as [|b t]; [destruct wz|]; simpl.
   - left. split; reflexivity.
-  - rewrite ?render_seq_nil. right; right. exact H.
+  - rewrite ?render_seq_nil. right. exact H.
   - left. split; reflexivity.
 Qed.
 
-(* parseExprList on a whitespace-separated list of tight arguments, up to the closing parenthesis *)
-Lemma expr_list_spec E : no_tyerr E -> forall k args, Forall (pratt_stmt E) args -> forall f st wz r acc,
+(* the tokens that end an argument list: ")" of a call in parentheses, the end of line of a call statement *)
+Definition list_end (c : token) : Prop := ttype c = T_RPAREN \/ is_eol (ttype c) = true.
+Lemma list_end_not_ws c : list_end c -> is_ws c = false.
+Proof.
+  unfold is_ws. intros [H|H]; [rewrite H; reflexivity|]. destruct (ttype c); try discriminate H; reflexivity.
+Qed.
+Lemma list_end_stop c : list_end c -> is_eol (ttype c) = true \/ precedences (ttype c) <= lowestPrec.
+Proof. intros [H|H]; [right; rewrite H, rparen_lowest; apply Nat.le_refl|left; exact H]. Qed.
+
+(* parseExprList on a whitespace-separated list of tight arguments, up to the closing parenthesis / the end of line *)
+Lemma expr_list_spec E : no_tyerr E -> forall k args, Forall (pratt_stmt E) args -> forall f st wz c r acc,
+  list_end c ->
   allP wl args -> args_ok E (atoms_ok E) wz args ->
   forallb (fun a => layout_ok a && tight_ok a) args = true ->
-  rest st = render_seq render args wz ++ mk T_RPAREN :: r -> is_wss st = false ->
+  rest st = render_seq render args wz ++ c :: r -> is_wss st = false ->
   List.length args < f ->
   max_over (fun a => S (spine a + Nat.max 1 (need a))) args <= k ->
   parse_expr_list (parse_expr E k) f acc st =
     Some (Some (rev acc ++ map tree_of args), consume_args (consume E) args st).
 Proof.
-  intros NT k args HF. induction HF as [|a t Ha Ht IH]; intros f st wz r acc Hwl Hat Hl Hr Hs Hf Hk.
+  intros NT k args HF. induction HF as [|a t Ha Ht IH]; intros f st wz c r acc Hc Hwl Hat Hl Hr Hs Hf Hk.
   - rewrite render_seq_nil in Hr. simpl in Hr. destruct f as [|f]; [simpl in Hf; lia|].
-    rewrite consume_args_nil. cbn [parse_expr_list]. unfold cur_t, cur. rewrite Hr. simpl.
-    rewrite app_nil_r. reflexivity.
+    rewrite consume_args_nil. change (map tree_of []) with (@nil tree). rewrite app_nil_r.
+    cbn [parse_expr_list]. unfold is_at_eol, cur_t, cur. rewrite Hr. cbn [look0 hd].
+    destruct Hc as [H|H]; [rewrite H; reflexivity|]. destruct (ttype c); try discriminate H; reflexivity.
   - destruct f as [|f]; [simpl in Hf; lia|].
     rewrite render_seq_cons in Hr. rewrite <- !app_assoc in Hr.
     destruct Hwl as [Hwa Hwt]. destruct Hat as [[Haa Hga] Hat].
@@ -1440,18 +1451,18 @@ Proof.
     rewrite max_over_cons in Hk. apply Nat.max_lub_iff in Hk as [Hka Hkt].
     rewrite expr_list_step by (rewrite (cur_t_first a st _ Hr); apply first_tok_prefix).
     unfold parse_expr_wss.
-    set (rest1 := render_seq render t wz ++ mk T_RPAREN :: r) in *.
-    assert (Hn : is_ws (look0 rest1) = false) by (apply render_seq_head_not_ws; reflexivity).
+    set (rest1 := render_seq render t wz ++ c :: r) in *.
+    assert (Hn : is_ws (look0 rest1) = false) by (apply render_seq_head_not_ws; exact (list_end_not_ws c Hc)).
     destruct (arg_step E a (consume_spec E a) st (seq_flag t wz) rest1 Hr Hn Hla Hta Hga Haa) as (A0 & B0 & A & B & C).
     rewrite (sub_expr_gen E a Ha (push_wss true st) (wsl (seq_flag t wz) ++ rest1) k Hwa Haa Hla Hr (fun _ => Hta)).
     + unfold ret. rewrite consume_args_cons.
-      rewrite (IH f _ wz r (tree_of a :: acc)); auto.
+      rewrite (IH f _ wz c r (tree_of a :: acc)); auto.
       * simpl. rewrite <- app_assoc. reflexivity.
       * unfold is_wss. rewrite B. exact Hs.
       * simpl in Hf. lia.
     + intro W. discriminate W.
     + intros F S. rewrite (Hga F S). exact Hn.
-    + apply seq_stop. change (precedences T_RPAREN <= lowestPrec). rewrite rparen_lowest. apply Nat.le_refl.
+    + apply seq_stop. apply list_end_stop. exact Hc.
     + exact Hka.
 Qed.
 
@@ -1517,7 +1528,7 @@ Qed.
 
 Lemma seq_stop_rbracket (t : list lexp) wz r :
   stop_tok true lowestPrec (look0 (wsl (seq_flag t wz) ++ render_seq render t wz ++ mk T_RBRACKET :: r)).
-Proof. apply seq_stop. change (precedences T_RBRACKET <= lowestPrec). rewrite rbracket_lowest. apply Nat.le_refl. Qed.
+Proof. apply seq_stop. right. change (precedences T_RBRACKET <= lowestPrec). rewrite rbracket_lowest. apply Nat.le_refl. Qed.
 
 (* the element loop of parseArrayLiteral on a whitespace-separated list of tight elements *)
 Lemma array_elems_spec E : no_tyerr E -> forall k args, Forall (pratt_stmt E) args -> forall f st wz r acc,
@@ -1949,7 +1960,7 @@ Proof.
     { rewrite W1. discriminate. } { intros _. exact Hr1h. }
     set (st2 := advance st1) in *.
     assert (W2 : is_wss st2 = false) by (rewrite (is_wss_eq _ _ B2); exact W1).
-    rewrite (expr_list_spec E NT k args IHargs k st2 wz r2 [] Hwl Hargs Hl A2 W2 Hk1 Hk2).
+    rewrite (expr_list_spec E NT k args IHargs k st2 wz (mk T_RPAREN) r2 [] (or_introl eq_refl) Hwl Hargs Hl A2 W2 Hk1 Hk2).
     assert (HC : Forall (consume_stmt E) args) by (apply Forall_forall; intros a _; apply consume_spec).
     destruct (consume_args_spec E (atoms_ok E) args HC st2 wz (mk T_RPAREN :: r2) A2) as (A3 & B3 & C3); auto.
     set (st3 := consume_args (consume E) args st2) in *.
@@ -2242,6 +2253,49 @@ Proof.
   - exists (consume E l s2). rewrite P. repeat split; auto.
     + unfold is_at_eol, cur_t, cur. rewrite Q. reflexivity.
     + rewrite S, C2, C1. reflexivity.
+Qed.
+
+(* a call statement  f a1 ... an NL  (parseTopLevelExpr at statement level, no parentheses): the
+   arguments are derivations of the grammar, separated by whitespace, each rendered tight *)
+Theorem call_stmt_parses E f args wz fuel :
+  no_tyerr E -> func_of E f = Some false -> arity_wrong E f (List.length args) = false ->
+  (forall a, In a args -> Lay 0 a) -> args_ok E (atoms_ok E) wz args ->
+  forallb (fun a => layout_ok a && tight_ok a) args = true ->
+  let toks := ident_tok f :: wsl (seq_flag args wz) ++ render_seq render args wz ++ [mk T_NL] in
+  2 * List.length toks <= fuel ->
+  exists st', parse_stmt_expr E fuel 0 toks = Some (Some (TCall f (map tree_of args)), st') /\
+              rest st' = [mk T_NL] /\ is_at_eol st' = true /\ errs st' = [].
+Proof.
+  intros NT Hfn Har HL Hargs Hl toks Hfu. unfold parse_stmt_expr. simpl Nat.iter.
+  set (s0 := init_state toks).
+  assert (W0 : is_wss s0 = false) by reflexivity.
+  assert (R0 : rest s0 = ident_tok f :: wsl (seq_flag args wz) ++ (render_seq render args wz ++ [mk T_NL])) by reflexivity.
+  rewrite (toplevel_call E _ _ s0 f _ R0 Hfn). unfold parse_func_call.
+  replace (tlit (cur s0)) with f by reflexivity.
+  cbn [orb negb].
+  assert (Hh : is_ws (look0 (render_seq render args wz ++ [mk T_NL])) = false) by (apply render_seq_head_not_ws; reflexivity).
+  destruct (advance_tok s0 _ _ _ R0) as (A1 & B1 & C1 & _).
+  { rewrite W0. discriminate. } { intros _. exact Hh. }
+  set (s1 := advance s0) in *.
+  assert (W1 : is_wss s1 = false) by (rewrite (is_wss_eq _ _ B1); exact W0).
+  assert (HP : Forall (pratt_stmt E) args) by (apply Forall_forall; intros a _; apply pratt_general; exact NT).
+  assert (HC : Forall (consume_stmt E) args) by (apply Forall_forall; intros a _; apply consume_spec).
+  assert (Hwl : allP wl args) by (apply allP_In; intros a Ha; exact (proj1 (Lay_wl _ _ (HL a Ha)))).
+  assert (HB : Forall (fun l => spine l + need l + 2 <= 2 * List.length (render l)) args)
+    by (apply Forall_forall; intros a _; apply fuel_bound).
+  destruct (seq_fuel args wz HB) as [F1 F2].
+  assert (Hlen : List.length toks = S (List.length (wsl (seq_flag args wz)) + (List.length (render_seq render args wz) + 1))).
+  { unfold toks. simpl List.length. rewrite !app_length. reflexivity. }
+  assert (Hf1 : List.length args < fuel) by lia.
+  assert (Hf2 : max_over (fun a => S (spine a + Nat.max 1 (need a))) args <= fuel) by lia.
+  rewrite (expr_list_spec E NT fuel args HP fuel s1 wz (mk T_NL) [] [] (or_intror eq_refl) Hwl Hargs Hl A1 W1 Hf1 Hf2).
+  destruct (consume_args_spec E (atoms_ok E) args HC s1 wz [mk T_NL] A1) as (A2 & B2 & C2); auto.
+  change (rev [] ++ map tree_of args) with (map tree_of args).
+  cbv beta iota zeta. rewrite map_length, Har. rewrite (tyerr_false E) by exact NT.
+  eexists. split; [reflexivity|]. repeat split.
+  - exact A2.
+  - unfold is_at_eol, cur_t, cur. rewrite A2. reflexivity.
+  - rewrite C2, C1. reflexivity.
 Qed.
 
 (* ================================================================ *)
